@@ -4,7 +4,8 @@ ENGINE = "common/engine.cpp"
 
 
 def pbt(binary, src, **kw):
-    d = {"binary": binary, "sources": [ENGINE, src], "variant": "asan", "level": "exploration"}
+    d = {"binary": binary, "sources": [ENGINE, src] + list(kw.pop("extra_sources", [])), "variant": "asan",
+         "level": "exploration"}
     d.update(kw)
     return d
 
@@ -296,7 +297,7 @@ def _c08_modes(stride, nsh):
 
 
 PROPS["C08"] = pbt(
-    "pbt_c08", "pbt_c08.cpp", modes_variant="o2",
+    "pbt_c08", "pbt_c08.cpp", modes_variant="o2", extra_sources=["common/cshim.c"],
     rule=("in-memory set->get for 32-bit patterns of int32, uint32 and float: every 256th pattern with a "
           "seed-dependent offset (quick), EVERY pattern (thorough, exhaustive: 3 x 2^32); boundary families of all six "
           "numeric types (type limits +-2, 2^k, 2^k+-1, 10^k+-1, single-bit patterns, smallest/largest normal and "
@@ -362,7 +363,7 @@ PROPS["C14"] = pbt(
 )
 
 PROPS["C20"] = pbt(
-    "pbt_c20", "pbt_c20.cpp", level="fault_enumeration",
+    "pbt_c20", "pbt_c20.cpp", level="fault_enumeration", extra_sources=["common/cshim.c"],
     env={"ASAN_OPTIONS": "exitcode=99:detect_leaks=1:quarantine_size_mb=16:abort_on_error=0:allocator_may_return_null=1"},
     fill_differential=True,
     valgrind_sample={"quick": 150, "thorough": 3000},
